@@ -385,7 +385,9 @@ func fetchTargets() []target {
 				seen := map[string]bool{}
 				for _, it := range res.items {
 					if strings.Contains(it, "An updated flaw was found") {
-						var v struct{ Name string `json:"name"` }
+						var v struct {
+							Name string `json:"name"`
+						}
 						json.Unmarshal([]byte(it), &v)
 						seen[v.Name] = true
 					}
